@@ -2,7 +2,7 @@
    cd ocaml/extracted && coqc -Q ../../coq ES ../../coq/Extract.v). *)
 From Coq Require Extraction ExtrOcamlBasic ExtrOcamlString.
 From ES Require Import Base Ssb.Param Ssb.Cfg Ssb.Equiv Ssb.Machine Lang.Ast Lang.Spec Lang.SrcSem Lang.Inline Lang.Static Lang.Domain Lang.MacroStatic
-  Comp.Passes Comp.Closed Text.Dec SM.Model Script.Model Script.Shift Pyg.Engine Gen.PygTable Text.Str Text.MStr Text.MLex Text.Meta Text.Num Dec.Writer Comp.PopSem Comp.BackEnd Comp.FinalizeSem Comp.ActSem Comp.StripSem Comp.MacroRA.
+  Comp.Passes Comp.Closed Text.Dec SM.Model Script.Model Script.Shift Pyg.Engine Gen.PygTable Text.Str Text.MStr Text.MLex Text.Meta Text.Num Dec.Writer Comp.PopSem Comp.BackEnd Comp.FinalizeSem Comp.ActSem Comp.StripSem Comp.MacroRA Comp.MacroBuild.
 Extraction Language OCaml.
 Extraction "extracted.ml"
   equiv_run cfg_of_ssb ssb_entries cfg_of_prog pair_entries silent_cycle observe param_eqb
@@ -17,5 +17,6 @@ Extraction "extracted.ml"
   wrun winit
   cfg_of_pops pop_entries backend_ok finalize_ok strip_ok
   exec flat_t spec_f ops_f
+  build
   parse_meta dispatches_to_ssbscript FALLBACK_HEAD
   Z.add Z.mul Z.opp Z.abs Z.div_eucl.
